@@ -4,7 +4,7 @@
 cd /verif
 run() { r=$1; shift; wt=/tmp/rf_$r; git -C /repo worktree remove --force $wt 2>/dev/null; git -C /repo worktree add --detach $wt f9d933b -q || return
   (cd $wt && git apply /verif/seeded/refactors/$r.diff) || { echo "$r: diff does not apply"; git -C /repo worktree remove --force $wt; return; }
-  for c in "$@"; do echo "== $r $c"; VERIF_REPO=$wt VERIF_OUT=/tmp/rf_out_$r VERIF_EVIDENCE_DIR=/tmp/rf_ev ./check $c --tier quick 2>&1 | grep -E "^(PASS|FAIL|VIOLATION|MACHINERY|DRIFT|KNOWN)" | cut -c1-200 | head -4; done
+  for c in "$@"; do echo "== $r $c"; VERIF_REPO=$wt VERIF_OUT=/tmp/rf_out_$r VERIF_EVIDENCE_DIR=/tmp/rf_ev ./check $c --tier quick > /tmp/rf_log_$r.txt 2>&1; grep -E "^(VIOLATION|MACHINERY)" /tmp/rf_log_$r.txt | cut -c1-200 | head -3; grep -cE "^DRIFT" /tmp/rf_log_$r.txt | sed 's/^/DRIFT lines: /'; grep -E "^(PASS|FAIL)" /tmp/rf_log_$r.txt | cut -c1-200; rm -f /tmp/rf_log_$r.txt; done
   git -C /repo worktree remove --force $wt; rm -rf /tmp/rf_out_$r; }
 run R2 C01 C02 C03 C17
 run R3 C08 C09 C10 C11 C12 C18
